@@ -181,7 +181,7 @@ impl Prop for C14 {
 
     fn plan(&self, tier: Tier) -> Plan {
         let mut p = Plan::new(match tier {
-            Tier::Quick => 500,
+            Tier::Quick => 6000,
             Tier::Thorough => 10_000,
         });
         p.workers = 12;
